@@ -166,22 +166,10 @@ func Project(recs []string, keys []string, withErrors bool) []string {
 		want[k] = true
 	}
 	var out []string
-	seenErr := map[string]bool{}
 	for _, r := range recs {
 		if strings.HasPrefix(r, "E ") {
 			if withErrors {
-				// A positioned error is compared by its position only: the properties say that a fault
-				// is reported and where, not in which words, so a reworded message (which could move the
-				// class) is not a difference. Position-less errors keep their class.
-				if !strings.HasPrefix(r, "E -:0:0:") {
-					if i := strings.LastIndexByte(r, ':'); i > 0 {
-						r = r[:i]
-					}
-				}
-				if !seenErr[r] {
-					seenErr[r] = true
-					out = append(out, r)
-				}
+				out = append(out, r)
 			}
 			continue
 		}
@@ -197,6 +185,30 @@ func Project(recs []string, keys []string, withErrors bool) []string {
 			}
 		}
 		out = append(out, strings.Join(keep, " "))
+	}
+	return out
+}
+
+// PositionOnly reduces positioned error records to their position ("E file:line:col") and removes
+// the duplicates this creates; position-less errors keep their class. The properties say that a
+// fault is reported and where, not in which words, so a runner that applies this does not see a
+// reworded message (which could move the class) as a difference.
+func PositionOnly(recs []string) []string {
+	seen := map[string]bool{}
+	out := make([]string, 0, len(recs))
+	for _, r := range recs {
+		if strings.HasPrefix(r, "E ") {
+			if !strings.HasPrefix(r, "E -:0:0:") {
+				if i := strings.LastIndexByte(r, ':'); i > 0 {
+					r = r[:i]
+				}
+			}
+			if seen[r] {
+				continue
+			}
+			seen[r] = true
+		}
+		out = append(out, r)
 	}
 	return out
 }
